@@ -12,8 +12,11 @@ Decided (structural, necessary conditions):
            bits = total * 8, 64-byte blocks; digest bytes are the five state words big-endian
 Not decided: equality with an independent implementation on every input (needs execution), SHA-1 round arithmetic.
 """
+import re
+
 from .. import refs
 from ..mir import const_int, op_place
+from ..prov import derive, index_of
 from ..sym import Explorer, K, is_const, show, walk
 from .c11 import N, fold, nocast
 
@@ -332,6 +335,66 @@ def sha1_rules(ctx):
 
     n_u = _unsafe_rule(ctx, [n_ for n_ in prog.raw_bodies if n_.startswith(("sha1::", "crc::"))])
     ctx.floor("UNSAFE", "unsafe operations in the hash modules", n_u, 2)
+    # the 4-lane vector type the compression function computes with: every lane-wise operator impl combines lane k of
+    # both operands with its own operator into lane k (an `&` written as `|` in one lane changes every digest)
+    LANE_OPS = {"Add": ("Add", "WAdd", "wrapping_add", "AddWithOverflow"), "Sub": ("Sub", "WSub", "wrapping_sub", "SubWithOverflow"), "BitAnd": ("BitAnd",), "BitOr": ("BitOr",), "BitXor": ("BitXor",), "Shl": ("Shl", "wrapping_shl"), "Shr": ("Shr", "wrapping_shr")}
+    n_lw = 0
+    for name_, b_ in sorted(prog.raw_bodies.items()):
+        m_ = re.match(r"<sha1::\w+::u32x4 as std::ops::(\w+)(<.*>)?>::\w+$", name_)
+        if not m_ or m_.group(1) not in LANE_OPS:
+            continue
+        lix = index_of(b_)
+        for _bi, _si, st_ in b_.stmts():
+            rv_ = st_.get("rv") or {}
+            if st_.get("k") == "assign" and rv_.get("k") == "agg" and str(rv_.get("adt", "")).endswith("u32x4") and st_["lhs"]["l"] == 0:
+                okl = True
+                det_ = []
+                for k_, o_ in enumerate(rv_["ops"]):
+                    d_ = derive(lix, o_)
+                    lanes_ = {pth[-1] for pth in d_.paths if pth}
+                    ops_ = {o2.replace("WithOverflow", "") for o2 in d_.ops} | {c_.split("::")[-1] for c_ in d_.calls}
+                    good = lanes_ <= {str(k_)} and bool(lanes_) and bool(ops_ & set(LANE_OPS[m_.group(1)])) and not (ops_ & {x for kk, vv in LANE_OPS.items() if kk != m_.group(1) for x in vv})
+                    okl = okl and good
+                    det_.append((sorted(lanes_), sorted(ops_)[:3]))
+                n_lw += 1
+                ctx.ob("SHA1", f"lanes|{m_.group(1)}{m_.group(2) or ''}", okl, f"{name_}: lane k of the result is computed from (lanes, operators) {det_}; must be lane k of both operands combined with {m_.group(1)}", b_.file, b_.line, sample=(n_lw == 1))
+    ctx.floor("SHA1", "lane-wise operator impls of the vector type", n_lw, 5)
+    # the compression function loads the 16 message words in order into w0..w3, the chaining state into (state[0..4],
+    # state[4]), and adds each working variable back into the state word of the same index
+    pb_ = prog.body("sha1::Sha1State::process")
+    if pb_:
+        pix_ = index_of(pb_)
+        word_seq = []
+        for _bi, _si, st_ in pb_.stmts():
+            rv_ = st_.get("rv") or {}
+            if st_.get("k") == "assign" and rv_.get("k") == "agg" and str(rv_.get("adt", "")).endswith("u32x4") and len(rv_.get("ops", [])) == 4:
+                idxs = []
+                for o_ in rv_["ops"]:
+                    r_ = pix_.resolve(o_)
+                    pl_ = None
+                    if r_[0] == "place":
+                        pl_ = r_[1]
+                    elif r_[0] == "rv" and r_[1].get("k") == "use":
+                        pl_ = r_[1]["a"].get("c") or r_[1]["a"].get("m")
+                    cix = None
+                    for pr_ in (pl_ or {}).get("p", []):
+                        if isinstance(pr_, dict) and "i" in pr_:
+                            c_ = pix_.resolve({"c": {"l": pr_["i"], "p": []}})
+                            cix = c_[1] if c_[0] == "const" else None
+                        elif isinstance(pr_, dict) and "ci" in pr_:
+                            cix = pr_["ci"]
+                    fld_ = {pr_.get("n") for pr_ in (pl_ or {}).get("p", []) if isinstance(pr_, dict) and pr_.get("n")}
+                    src_ = "state" if "state" in fld_ else ("words" if pl_ and str(pb_.locals[pl_["l"]].get("ty", "")).replace(" ", "") == "[u32;16]" else "?")
+                    idxs.append((src_, cix))
+                if all(i_[1] is not None for i_ in idxs):
+                    word_seq.append(idxs)
+        from_words = [x for x in word_seq if all(s_ == "words" for s_, _i in x)]
+        flat_w = [i_ for x in from_words for _s, i_ in x]
+        if from_words:
+            ctx.ob("SHA1", "message-words-in-order", flat_w == list(range(16)), f"the message words are loaded into the vectors as words{flat_w}; must be words[0..16] in order", pb_.file, pb_.line)
+        from_state = [x for x in word_seq if all(s_ == "state" for s_, _i in x)]
+        if from_state:
+            ctx.ob("SHA1", "state-words-in-order", [i_ for _s, i_ in from_state[0]] == [0, 1, 2, 3], f"the chaining state is loaded as state{[i_ for _s, i_ in from_state[0]]}; must be state[0..4]", pb_.file, pb_.line)
     dl = prog.const_scalar("sha1::DIGEST_LENGTH")
     ctx.ob("SHA1", "DIGEST_LENGTH", dl == 20, f"DIGEST_LENGTH = {dl}", "src/sha1.rs")
     # round-group dispatch
